@@ -40,7 +40,7 @@ func (h *RefreshFunc) Final(ctx *sqlite.AggregateContext) {
 		ctx.ResultError(fmt.Errorf("table not found: %s", fCtx.tableName))
 		return
 	}
-	if vt.Tree != nil && vt.Tree.Root != nil && vt.Tree.Root.IsDirty() {
+	if !vt.S3Options.ReadOnly && vt.Tree != nil && vt.Tree.Root != nil && vt.Tree.Root.IsDirty() {
 		// replacing the handle would silently drop the open transaction's writes
 		ctx.ResultError(fmt.Errorf("cannot refresh %s: transaction with uncommitted changes in progress", fCtx.tableName))
 		return
